@@ -295,7 +295,25 @@ func (s *Store[H]) DeleteRange(ctx context.Context, from, to uint64) error {
 		// If it exists, we can't wipe - there's a header that would become the new tail
 		_, err := s.getByHeight(ctx, to)
 		if errors.Is(err, header.ErrNotFound) {
-			// No header at 'to', safe to wipe the entire store
+			// No header at 'to', safe to wipe the entire store:
+			// delete all the headers first and only then drop the pointers
+			actualTo, _, err := s.deleteRangeRaw(ctx, from, to)
+			if err != nil {
+				// reflect the progress made, so the deletion can be retried
+				if terr := s.setTail(ctx, s.ds, actualTo); terr != nil {
+					err = errors.Join(
+						err,
+						fmt.Errorf("header/store: setting tail to %d: %w", actualTo, terr),
+					)
+				}
+				return fmt.Errorf(
+					"header/store: delete range [%d:%d) (actual: %d): %w",
+					from,
+					to,
+					actualTo,
+					err,
+				)
+			}
 			if err := s.wipe(ctx); err != nil {
 				return fmt.Errorf("header/store: wipe: %w", err)
 			}
